@@ -28,7 +28,14 @@ RULE = ("cases = corpus + every max_cycles in 0..64 on a counter, a toggle and a
         "removed name, enable/disable, fact edits, reset_no_loop_tracking; 2..5 executes) "
         "+ N/10 histories in which a call ends at the max_cycles bound or with an action error after an activation-group rule fired, "
         "optionally repaired (disable/remove the failing rule, set the missing field), followed by one or two more calls "
-        "(every ordered pair of the two execute twins). Every case "
+        "(every ordered pair of the two execute twins; a third of the failing rules are lock-on-active / no-loop) "
+        "+ N/12 histories in which the action of a lock-on-active / no-loop rule returns Err (it reads an absent field, alone or after "
+        "an action that went through; MAIN or a focused agenda group; next to counters, one-shot rules and lock-on-active rules that do "
+        "fire), the cause is repaired between the calls (the field is set) or not, and one or two more calls follow without re-focusing "
+        "+ N/12 rule sets whose firing rules have workflow bookkeeping actions only (W.k: ScheduleRule / CompleteWorkflow / "
+        "SetWorkflowData, 1..3 per rule; always-true or slowly quiescing conditions, mostly without no-loop; alone, next to rules that fire "
+        "in the first passes only, mixed with Set actions; such a rule carries no Custom marker — its firing marker is a trailing "
+        "ScheduleRule with delay 0 read back through get_ready_tasks and merged by instant), W.k actions also in the random sets. Every case "
         "runs in a thread with a 5 s deadline (a call that does not return is observed as `hang`). Observations: GruleExecutionResult "
         "{cycle_count, rules_evaluated, rules_fired}, the callback/marker firing sequence, facts and active group after each call; diffed "
         "against the Lean model, and the clauses C03.countersOk (cycle_count<=max_cycles, fired = number of firings observed, "
